@@ -210,13 +210,13 @@ _HDR = {}
 def header_errors(v, line):
     """validation errors of the MSH line on its own (v2.1/v2.2 require components the canonical header
     does not carry): not attributed to group finding"""
-    if v not in _HDR:
+    if line not in _HDR:
         try:
             rep = parse_segment(line, version=v, validation_level=S.TOLERANT).validate(return_errors=True)
-            _HDR[v] = sorted(str(e) for e in rep.errors)
+            _HDR[line] = sorted(str(e) for e in rep.errors)
         except Exception as ex:  # noqa
-            _HDR[v] = ['EXC ' + repr(ex)]
-    return _HDR[v]
+            _HDR[line] = ['EXC ' + repr(ex)]
+    return _HDR[line]
 
 
 def impl_tree(el):
@@ -240,8 +240,8 @@ def declared_ok(ref, el):
 
 
 def addressable(m, ref):
-    return isinstance(ref, tuple) and len(ref) == 2 and ref[0] == 'sequence' and m == m.upper() and \
-        (('_' in m and m.count('_') == 1) or True)
+    """a structure parse_message can be asked for: a sequence whose name survives Message's upper()"""
+    return isinstance(ref, tuple) and len(ref) == 2 and ref[0] == 'sequence' and m == m.upper()
 
 
 # ------------------------------------------------------------------------------------------
@@ -360,6 +360,132 @@ def random_case(run, v, lib, m, pool, stats):
         run.fail('order-changed', 'flattening the group tree does not give the input segment sequence',
                  version=v, structure=m, mode='random', names=names, flattened=flat(got))
     return {'v': v, 'm': m, 'mode': None, 'names': names, 'dump': dump(got), 'presc': ''}
+
+
+# ------------------------------------------------------------------------------------------
+# synthetic structures: parse_segments(text, references=<made-up structure>, find_groups=True).
+# The shipped tables only use the cardinalities (0|1, 1|-1); made-up structures also exercise bounded
+# maxima above 1, nested groups of any shape and repeated names.  Order and declared-children are
+# judged by the oracle; the forest goes to the model with the structure written inline.
+
+SYN_CARDS = [(0, 1), (1, 1), (0, -1), (1, -1), (0, 2), (1, 3), (0, 1), (1, 1)]
+
+
+def syn_structure(rng, lib, segpool, depth, counter):
+    rows = []
+    for _ in range(rng.randint(1, 4)):
+        card = rng.choice(SYN_CARDS)
+        if depth < 3 and rng.random() < .4:
+            counter[0] += 1
+            rows.append(('SYN_G%d' % counter[0], syn_structure(rng, lib, segpool, depth + 1, counter), card, 'GRP'))
+        else:
+            sn = rng.choice(segpool)
+            rows.append((sn, lib.SEGMENTS[sn], card, 'SEG'))
+    return ('sequence', tuple(rows))
+
+
+def syn_term(ref):
+    def z(n):
+        return '(%d)' % n if n < 0 else '%d' % n
+    rows = []
+    for name, cref, (mn, mx), kind in ref[1]:
+        if kind == 'SEG':
+            rows.append('SByName SEG %s %s%%Z %s%%Z' % (coq_str(name), z(mn), z(mx)))
+        else:
+            rows.append('SIn GRP %s %s %s%%Z %s%%Z' % (coq_str(name), syn_term(cref), z(mn), z(mx)))
+    return '(SSeqIn false [%s] None)' % '; '.join(rows)
+
+
+def synthetic_cases(run, v, lib, count, stats):
+    from hl7apy.parser import parse_segments
+    rng = run.rng
+    allsegs = [s for s in sorted(lib.SEGMENTS) if S.ok_segment(lib, s) and lib.SEGMENTS[s][1] and s != 'MSH'
+               and not s.startswith('Z')]
+    out = []
+    for k in range(count):
+        segpool = rng.sample(allsegs, 6)
+        ref = syn_structure(rng, lib, segpool, 0, [0])
+        term = syn_term(ref)
+        seqs = [flat(instance(ref, mode)) for mode in MODES]
+        own = list(places(ref)) or segpool
+        for _ in range(3):
+            seqs.append([rng.choice(own) if rng.random() < .8 else rng.choice(allsegs + ['ZZZ'])
+                         for _ in range(rng.randint(1, 10))])
+        for names in seqs:
+            if not names:
+                continue
+            text = '\r'.join(n + '|1' for n in names)
+            try:
+                kids = parse_segments(text, v, None, S.TOLERANT, ref, True)
+            except Exception as ex:  # noqa
+                run.fail('synthetic-rejected', 'parse_segments raises on a made-up structure', version=v,
+                         structure=repr(ref_brief(ref)), names=names, exc=repr(ex))
+                continue
+
+            class Top(object):
+                children = kids
+                name = None
+            got = impl_tree(Top)
+            stats['synthetic_sequences'] += 1
+            if flat(got) != names:
+                run.fail('order-changed', 'flattening the group tree does not give the input segment sequence',
+                         version=v, structure=repr(ref_brief(ref)), mode='synthetic', names=names, flattened=flat(got))
+            bad = [b for b in declared_ok(ref, Top) if not b.startswith('segment')]
+            if bad:
+                run.fail('undeclared-child', 'an element of the group tree is not a declared child of its parent',
+                         undeclared=bad[:5], names=names, version=v, structure=repr(ref_brief(ref)), mode='synthetic')
+            out.append({'v': v, 'term': term, 'names': names, 'dump': dump(got)})
+    return out
+
+
+def ref_brief(ref):
+    return [(n if k == 'SEG' else (n, ref_brief(r)), c) for n, r, c, k in ref[1]]
+
+
+SYN_PRELUDE = '''From Coq Require Import List NArith ZArith Init.Byte.
+From HL7 Require Import Lib.Str Model.Result Model.Ref Model.Groups.
+From HL7 Require Gen.%(mod)s.
+Import ListNotations. Open Scope bs_scope.
+Definition t := Gen.%(mod)s.tables.
+Definition case := (sref * list str * str)%%type.
+Definition model_ok (c : case) : bool :=
+  match c with (r, names, d) =>
+    match find_groups_names t r names with Ok f => streqb (dump_nforest f) d | Err _ => false end end.
+Fixpoint failing (n : nat) (l : list case) : list nat :=
+  match l with [] => [] | c :: r => (if model_ok c then [] else [n]) ++ failing (S n) r end.
+'''
+
+
+def run_synth_model(run, cases):
+    byv = collections.OrderedDict()
+    for c in cases:
+        byv.setdefault(c['v'], []).append(c)
+    files, index = [], []
+    for v, cs in byv.items():
+        for k, sh in enumerate(shard(cs, 400)):
+            L = [SYN_PRELUDE % {'mod': S.modname(v)}, 'Definition cases : list case := [']
+            L.append(';\n'.join('(%s, [%s], %s)' % (c['term'], '; '.join(coq_str(n) for n in c['names']),
+                                                    coq_str(c['dump'])) for c in sh))
+            L.append('].')
+            L.append('Eval vm_compute in failing 0 cases.')
+            files.append(('c08s_%d_%s_%d' % (os.getpid(), v.replace('.', '_'), k), '\n'.join(L) + '\n'))
+            index.append(sh)
+    results = coq_eval_many(files, timeout=1500)
+    evaluated = 0
+    for sh, (rc, out) in zip(index, results):
+        lists = parse_nat_lists(out)
+        if rc != 0 or len(lists) != 1:
+            run.disagree('group-search-synthetic', why='case file did not evaluate', version=sh[0]['v'],
+                         output=out[-1200:])
+            continue
+        evaluated += len(sh)
+        if lists[0]:
+            print('[C08] version %s: failing synthetic case indices %s' % (sh[0]['v'], lists[0][:20]), flush=True)
+        for i in lists[0]:
+            c = sh[i]
+            run.disagree('group-search-synthetic', version=c['v'], structure=c['term'][:1500], names=c['names'],
+                         implementation=c['dump'])
+    return evaluated
 
 
 # ------------------------------------------------------------------------------------------
@@ -602,7 +728,8 @@ def impl_version(job):
                 if c is not None:
                     ncases.append(c)
     mcases = message_cases(run, v, lib, nmsg)
-    return {'structures': structures, 'stats': dict(stats), 'ncases': ncases, 'mcases': mcases,
+    scases = synthetic_cases(run, v, lib, 25 if not thorough else 150, stats)
+    return {'structures': structures, 'stats': dict(stats), 'ncases': ncases, 'mcases': mcases, 'scases': scases,
             'failures': run.failures, 'bad_lines': sorted('%s/%s' % k for k, (l, e) in _LINES.items() if e)}
 
 
@@ -616,7 +743,7 @@ def main(argv=None):
     if ok:
         run.print_assumptions('Properties.C08', [n for n, _ in theorems_of('Properties/C08.v')])
     stats = collections.Counter()
-    ncases, mcases, bad_lines = [], [], []
+    ncases, mcases, scases, bad_lines = [], [], [], []
     structures = 0
     nrand = 2 if not run.thorough else 3
     per_version = 25 if not run.thorough else 100000
@@ -627,6 +754,7 @@ def main(argv=None):
             stats.update(res['stats'])
             ncases.extend(res['ncases'])
             mcases.extend(res['mcases'])
+            scases.extend(res['scases'])
             bad_lines.extend(res['bad_lines'])
             for kind, what, data in res['failures']:
                 run.fail(kind, what, **data)
@@ -635,28 +763,30 @@ def main(argv=None):
                                     len(run.failures)))
     ev_n = run_names_model(run, ncases)
     run.log('names-level model: %d cases evaluated, %d disagreements' % (ev_n, len(run.disagreements)))
+    ev_s = run_synth_model(run, scases)
+    run.log('names-level model on made-up structures: %d cases evaluated, %d disagreements' % (ev_s, len(run.disagreements)))
     ev_m = run_message_model(run, mcases)
     run.log('message-level model: %d cases evaluated, %d disagreements' % (ev_m, len(run.disagreements)))
     nontrivial = len({(c['v'], c['m'], c['mode'], c['dump']) for c in ncases if '(' in c['dump']})
     samples = [{'version': c['v'], 'structure': c['m'], 'mode': c['mode'], 'names': c['names'][:30],
                 'forest': c['dump'][:300]} for c in ncases[:: max(1, len(ncases) // 6)][:6]]
     run.finish({
-        'evaluations': len(ncases) + len(mcases),
+        'evaluations': len(ncases) + len(mcases) + len(scases),
         'distinct_nontrivial': nontrivial,
         'rule': 'for %s message structures of every version: the instances required-only / all-children / '
                 'repeatable-groups-twice (depth 3) written as ER7 (MSH-9 names the structure; every segment line '
                 'carries its required fields), parsed under TOLERANT with group finding on (twice) and off; plus %d '
                 'random sequences per structure over its own, foreign and Z segment names (model fidelity and order '
-                'only); plus whole messages under both levels and both group modes with unknown, lower-case and Z '
+                'only); plus made-up structures (nested groups, repeated names, bounded maxima above 1) given to parse_segments directly; plus whole messages under both levels and both group modes with unknown, lower-case and Z '
                 'names for the message-level model.  non-trivial/distinct = distinct (version, structure, mode, forest) '
                 'whose forest contains at least one group' % ('all' if run.thorough else '%d seed-chosen' % per_version,
                                                               nrand),
         'samples': samples,
-        'traces_validated_against_impl': ev_n + ev_m,
+        'traces_validated_against_impl': ev_n + ev_m + ev_s,
         'input_distribution': dict(stats),
-        'names_level_cases': len(ncases), 'message_level_cases': len(mcases),
+        'names_level_cases': len(ncases), 'message_level_cases': len(mcases), 'synthetic_structure_cases': len(scases),
         'segment_lines_not_validating_standalone': bad_lines[:60],
-        'exhaustive': bool(run.thorough),
+        'exhaustive': False, 'instance_families_enumerated_completely': bool(run.thorough),
     }, assumptions=[
         'model fidelity is claimed for ASCII text; message profiles are not modelled',
         'validation errors that a segment line also produces standalone are not attributed to group finding',
